@@ -4,8 +4,11 @@ package props
 import (
 	"fmt"
 	"math/rand"
+	"runtime"
 	"sort"
 	"strings"
+	"sync"
+	"time"
 
 	"verifharness/core"
 	"verifharness/mon"
@@ -300,4 +303,32 @@ func AddInitLookups(rng *rand.Rand, sc *world.Scenario, p float64) int {
 		n++
 	}
 	return n
+}
+
+// waitOrStall waits for wg; it gives up (false) when progress() has not moved during 3 million scheduler
+// yields AND 5 s: the goroutines are then blocked for good (they are abandoned).
+func waitOrStall(wg *sync.WaitGroup, progress func() int64) bool {
+	done := make(chan struct{})
+	go func() { wg.Wait(); close(done) }()
+	last, idle := int64(-1), 0
+	t0 := time.Now()
+	for {
+		select {
+		case <-done:
+			return true
+		default:
+		}
+		if p := progress(); p != last {
+			last, idle, t0 = p, 0, time.Now()
+		}
+		idle++
+		if idle > 3000000 && time.Since(t0) > 5*time.Second {
+			return false
+		}
+		if idle%256 == 0 {
+			time.Sleep(20 * time.Microsecond)
+		} else {
+			runtime.Gosched()
+		}
+	}
 }
